@@ -293,3 +293,5 @@ mod protocol;
 #[cfg(feature = "testing")]
 pub mod testing;
 mod validate;
+#[cfg(feature = "verif")]
+pub mod verif;
